@@ -895,11 +895,11 @@ class Harness:
         self.log("advance", dt=dt)
 
     # ----- connections
-    def inbound(self, ip="10.9.9.9", port=50000) -> ScriptedPeer:
+    def inbound(self, ip="10.9.9.9", port=50000, listener=0) -> ScriptedPeer:
         """A peer dials the node: the accepted socket is prepared and the listener's doorbell rung."""
         if not self.listeners:
             raise RuntimeError("node has no listener")
-        lst = self.listeners[0]
+        lst = self.listeners[listener % len(self.listeners)]
         a, b = real_socket.socketpair()
         ns = (SctpSocket if getattr(lst, "is_sctp", False) else ShimSocket)(self, a, None, role="accepted",
                                                                           peer_addr=(ip, port))
